@@ -123,6 +123,13 @@ Proof.
   - apply IH. intros a b Ha Hb. apply Hf; right; assumption.
 Qed.
 
+(* the column of a stripped sheet under a header *)
+Definition sheet_col (h : str) (sheet : list (list (str * upv))) : list (option upv) := map (assoc_str h) sheet.
+
+(* finite check over the regenerated exclusion set: the row_id column is kept *)
+Lemma row_id_not_excluded : excluded strip_excluded (lit "row_id") = false.
+Proof. vm_compute. reflexivity. Qed.
+
 (* ================================================================== Part C: the DFS *)
 Section RowIds.
 Variable U : Type.
@@ -553,7 +560,113 @@ Proof.
     eapply Forall_impl; [|exact Ee]. intros p Hpf. cbn beta in Hpf. rewrite Hpf. left. reflexivity.
 Qed.
 
+(* ---- a predicate on rows that the three ways of making / changing a row respect holds of
+   every row of the state *)
+Section RowPred.
+Variable Q : trow -> Prop.
+Hypothesis Q_init : forall n sn pe rms, initiate_row_models n sn pe = Ok rms -> Forall Q rms.
+Hypothesis Q_goto : forall k u cs s e, Q (goto_row k (TNode u cs) s e).
+Hypothesis Q_prepend : forall r e, Q r ->
+  Q {| r_id := r_id r; r_type := r_type r; r_edges := e :: r_edges r; r_goto := r_goto r; r_pay := r_pay r |}.
+
+Lemma prepend_edge_pred t e rows : forall rows',
+  Forall Q rows -> prepend_edge ueqb t e rows = Some rows' -> Forall Q rows'.
+Proof.
+  induction rows as [|r rest IH]; intros rows' Hr H; cbn [prepend_edge] in H; [discriminate|].
+  inversion Hr as [|r0 l0 Hr1 Hr2]; subst.
+  destruct (tid_eqb ueqb (r_id r) t).
+  - inversion H; subst. constructor; [apply Q_prepend, Hr1|exact Hr2].
+  - destruct (prepend_edge ueqb t e rest) as [rest'|]; [|discriminate].
+    inversion H; subst. constructor; [exact Hr1|]. apply IH; [exact Hr2|reflexivity].
+Qed.
+
+Definition rec_pred (rec : node U -> edge U tidU -> state U -> res (state U)) : Prop :=
+  forall c e s s', Forall Q (st_rows s) -> rec c e s = Ok s' -> Forall Q (st_rows s').
+
+Lemma step_pred rec : rec_pred rec ->
+  forall st p st', Forall Q (st_rows st) -> step ueqb nodes rec st p = Ok st' -> Forall Q (st_rows st').
+Proof.
+  intros Hrec st [d e] st' Hq H. unfold step in H. cbn [fst snd] in H.
+  destruct d as [d|]; [|inversion H; subst; exact Hq].
+  destruct (find_node ueqb nodes d) as [child|]; [|discriminate].
+  destruct (mem_u ueqb (n_uuid child) (st_done st)).
+  - destruct (short_name child) as [csn|er]; cbn [bind] in H; [|discriminate].
+    destruct (prepend_edge ueqb _ e (st_rows st)) as [rows'|] eqn:Ep; [|discriminate].
+    inversion H; subst. cbn [st_rows]. apply (prepend_edge_pred _ _ _ _ Hq Ep).
+  - destruct (mem_u ueqb (n_uuid child) (st_vis st)).
+    + destruct (short_name child) as [csn|er]; cbn [bind] in H; [|discriminate].
+      inversion H; subst. cbn [st_rows]. constructor; [apply Q_goto|exact Hq].
+    + apply (Hrec _ _ _ _ Hq H).
+Qed.
+
+Lemma foldM_step_pred rec : rec_pred rec ->
+  forall prs st st', Forall Q (st_rows st) -> foldM (step ueqb nodes rec) prs st = Ok st' -> Forall Q (st_rows st').
+Proof.
+  intros Hrec prs. induction prs as [|p rest IH]; intros st st' Hq H; cbn [foldM] in H.
+  - inversion H; subst. exact Hq.
+  - destruct (step ueqb nodes rec st p) as [st1|e] eqn:Es; [|discriminate].
+    apply (IH _ _ (step_pred rec Hrec _ _ _ Hq Es) H).
+Qed.
+
+Lemma visit_pred : forall fuel, rec_pred (visit ueqb nodes fuel).
+Proof.
+  induction fuel as [|fuel IH]; intros n pe st st' Hq H; cbn [visit] in H; [discriminate|].
+  destruct (short_name n) as [sn|e]; cbn [bind] in H; [|discriminate].
+  destruct (initiate_row_models n sn pe) as [rms|e] eqn:Ei; cbn [bind] in H; [|discriminate].
+  destruct (exit_edge_pairs ueqb n (last_row_id n sn)) as [prs|e]; cbn [bind] in H; [|discriminate].
+  destruct (foldM _ (rev prs) _) as [st1|e] eqn:Ef; cbn [bind] in H; [|discriminate].
+  apply (foldM_step_pred _ IH) in Ef; [|exact Hq].
+  inversion H; subst. cbn [st_rows]. apply Forall_app. split; [apply (Q_init _ _ _ _ Ei)|exact Ef].
+Qed.
+End RowPred.
+
 End Dfs.
+
+Lemma to_rows_tmp_pred (Q : trow -> Prop) :
+  (forall n sn pe rms, initiate_row_models n sn pe = Ok rms -> Forall Q rms) ->
+  (forall k u cs s e, Q (goto_row k (TNode u cs) s e)) ->
+  (forall r e, Q r -> Q {| r_id := r_id r; r_type := r_type r; r_edges := e :: r_edges r; r_goto := r_goto r; r_pay := r_pay r |}) ->
+  forall nodes rows, to_rows_tmp ueqb nodes = Ok rows -> Forall Q rows.
+Proof.
+  intros Q1 Q2 Q3 nodes rows. unfold to_rows_tmp. destruct nodes as [|n0 rest].
+  - intros H; inversion H; subst. constructor.
+  - destruct (visit ueqb (n0 :: rest) _ n0 start_edge state0) as [st|e] eqn:Ev; cbn [bind]; [|discriminate].
+    intros H; inversion H; subst.
+    apply (visit_pred (n0 :: rest) Q Q1 Q2 Q3 _ n0 start_edge state0 st (Forall_nil _) Ev).
+Qed.
+
+(* go_to targets are rows of nodes (never "start"); only go_to rows have targets *)
+Definition goto_targets_ok (r : trow) : Prop := Forall (fun t => t <> TStart) (r_goto r).
+
+Lemma action_rows_goto u sn base acts : forall i pe (rms : list trow),
+  action_rows u sn base acts i pe = Ok rms -> Forall (fun r => r_goto r = []) rms.
+Proof.
+  induction acts as [|a rest IH]; intros i pe rms H; cbn [action_rows] in H.
+  - inversion H; subst. constructor.
+  - destruct (action_fields a) as [tp|e]; cbn [bind] in H; [|discriminate].
+    destruct (action_rows u sn base rest (S i) _) as [more|e] eqn:Em; cbn [bind] in H; [|discriminate].
+    inversion H; subst. constructor; [reflexivity|apply (IH _ _ _ Em)].
+Qed.
+
+Lemma initiate_goto n sn pe (rms : list trow) :
+  initiate_row_models n sn pe = Ok rms -> Forall (fun r => r_goto r = []) rms.
+Proof.
+  unfold initiate_row_models. intros H.
+  destruct (node_kwargs n) as [kw|e]; cbn [bind] in H; [|discriminate].
+  destruct (n_actions n) as [|a rest] eqn:Ea.
+  - destruct kw as [[tp p]|]; [|discriminate]. inversion H; subst. constructor; [reflexivity|constructor].
+  - apply (action_rows_goto _ _ _ _ _ _ _ H).
+Qed.
+
+Lemma to_rows_tmp_goto nodes rows : to_rows_tmp ueqb nodes = Ok rows -> Forall goto_targets_ok rows.
+Proof.
+  apply to_rows_tmp_pred.
+  - intros n sn pe rms H. apply initiate_goto in H. eapply Forall_impl; [|exact H].
+    intros r Hr. unfold goto_targets_ok. cbn beta in Hr. rewrite Hr. constructor.
+  - intros k u cs s e. unfold goto_targets_ok, goto_row. cbn [r_goto].
+    constructor; [discriminate|constructor].
+  - intros r e Hr. exact Hr.
+Qed.
 
 (* ---- the temporary rows of a flow *)
 Lemma to_rows_tmp_ids nodes rows :
@@ -725,6 +838,118 @@ Proof.
       * apply NoDup_map_inj; [|apply seq_NoDup]. intros a b _ _ Hab. apply dec_of_nat_inj in Hab. lia.
     + apply (Hrd eq_refl). cbn. constructor; [intros []|constructor].
   - intros Hnb. rewrite Hvals, (Hnum Hnb), <- seq_shift, map_map. reflexivity.
+Qed.
+
+(* ---- the statements of the property, on the rows *)
+Lemma NoDup_map_eq {S T} (f : S -> T) (l : list S) a b :
+  NoDup (map f l) -> In a l -> In b l -> f a = f b -> a = b.
+Proof.
+  induction l as [|x l IH]; intros Hnd Ha Hb Hf; [destruct Ha|].
+  cbn [map] in Hnd. inversion Hnd as [|y l' Hx Hl]; subst.
+  destruct Ha as [Ha|Ha], Hb as [Hb|Hb]; subst.
+  - reflexivity.
+  - exfalso. apply Hx. rewrite Hf. apply in_map, Hb.
+  - exfalso. apply Hx. rewrite <- Hf. apply in_map, Ha.
+  - apply IH; assumption.
+Qed.
+
+(* C17-5'.  the same, with injectivity spelled out: two references are equal after the
+   remapping only if they were equal before (a reference still names the row it named) *)
+Theorem to_rows_faithful nb nodes rows :
+  to_rows ueqb nb nodes = Ok rows ->
+  exists (tmp : list trow) (f : tidU -> str),
+    to_rows_tmp ueqb nodes = Ok tmp /\ rows = map (relabel f) tmp /\ f TStart = start_id
+    /\ NoDup (map r_id tmp)
+    /\ (forall a b, In a (TStart :: map r_id tmp) -> In b (TStart :: map r_id tmp) -> f a = f b -> a = b).
+Proof.
+  intros H. apply to_rows_relabelling in H. destruct H as [tmp [f [Ht [Hr [Hs [Hnd [_ _]]]]]]].
+  exists tmp, f. repeat split; try assumption.
+  - apply to_rows_tmp_ids in Ht. apply Ht.
+  - intros a b Ha Hb. apply (NoDup_map_eq f _ a b Hnd Ha Hb).
+Qed.
+
+(* C17-6.  --numbered: the row ids are "1", "2", ..., "n" in row order (all rows, go_to rows
+   included), for every flow on which the export succeeds. *)
+Theorem numbered_ids_are_1_to_n nodes rows :
+  to_rows ueqb true nodes = Ok rows -> map r_id rows = map dec_of_nat (seq 1 (List.length rows)).
+Proof.
+  intros H. apply to_rows_relabelling in H. destruct H as [tmp [f [_ [Hr [_ [_ [_ Hn]]]]]]].
+  subst rows. rewrite map_map, map_length. cbn [relabel r_id]. rewrite <- (Hn eq_refl), map_map. reflexivity.
+Qed.
+
+Definition refs_resolve (rows : list (row U str)) : Prop :=
+  Forall (fun r => Forall (fun e => e_from e = start_id \/ In (e_from e) (map r_id rows)) (r_edges r)
+                   /\ Forall (fun g => In g (map r_id rows)) (r_goto r)) rows.
+
+(* C17-7.  numbered or not: the row ids are pairwise distinct, none is "start", every edge
+   origin is "start" or the id of a row and every go_to target is the id of a row. *)
+Theorem row_ids_unique nb nodes rows :
+  to_rows ueqb nb nodes = Ok rows ->
+  NoDup (map r_id rows) /\ ~ In start_id (map r_id rows) /\ refs_resolve rows.
+Proof.
+  intros H. apply to_rows_relabelling in H. destruct H as [tmp [f [Ht [Hr [Hs [Hnd [Hrefs _]]]]]]].
+  pose proof (to_rows_tmp_goto _ _ Ht) as Hg.
+  assert (Hids : map r_id rows = map f (map r_id tmp)) by (subst rows; rewrite !map_map; reflexivity).
+  cbn [map] in Hnd. rewrite Hs in Hnd. inversion Hnd as [|x l Hx Hl]; subst x l.
+  rewrite Hids. split; [exact Hl|]. split; [exact Hx|].
+  unfold refs_resolve. rewrite Hids. subst rows. rewrite Forall_map.
+  unfold Refs, RefsI in Hrefs. rewrite Forall_forall in Hrefs, Hg. apply Forall_forall. intros r Hr.
+  specialize (Hrefs r Hr). specialize (Hg r Hr). unfold row_refs in Hrefs. apply Forall_app in Hrefs.
+  destruct Hrefs as [He Hgt]. cbn [relabel r_edges r_goto]. split.
+  - rewrite Forall_map. rewrite Forall_map in He. eapply Forall_impl; [|exact He].
+    intros e [Ha|[Ha|[]]]; cbn [e_from]; [left; rewrite Ha; exact Hs|right; apply in_map, Ha].
+  - rewrite Forall_map. unfold goto_targets_ok in Hg. rewrite Forall_forall in Hg, Hgt.
+    apply Forall_forall. intros t Hin. destruct (Hgt t Hin) as [Ha|[Ha|[]]]; [exfalso; exact (Hg t Hin Ha)|apply in_map, Ha].
+Qed.
+
+(* ---- the same on the stripped sheet: the row_id column *)
+Lemma close_sheet_row_ids (rows : list (row U str)) : forall sheet,
+  close_sheet (map (fun r => strip_cells strip_excluded (row_cells r)) rows) = Some sheet ->
+  sheet_col (lit "row_id") sheet = map (fun r => Some (VS (r_id r))) rows.
+Proof.
+  induction rows as [|r rest IH]; intros sheet H; cbn [map close_sheet] in H.
+  - inversion H; reflexivity.
+  - destruct (close_cells _) as [c|] eqn:Ec; [|discriminate].
+    destruct (close_sheet _) as [cs|] eqn:Es; [|discriminate].
+    inversion H; subst. cbn [sheet_col map]. f_equal; [|apply IH; reflexivity].
+    unfold row_cells, strip_cells in Ec. cbn [app filter fst] in Ec.
+    rewrite row_id_not_excluded in Ec. cbn [negb close_cells close_cell snd fst] in Ec. unfold PS in Ec at 1.
+    destruct (close_cells _) as [c'|]; [|discriminate]. inversion Ec; subst.
+    cbn [assoc_str]. rewrite str_eqb_refl. reflexivity.
+Qed.
+
+Lemma export_strip_rows nb nodes sheet :
+  export_strip ueqb nb nodes = Ok (Some sheet) ->
+  exists rows, to_rows ueqb nb nodes = Ok rows
+               /\ sheet_col (lit "row_id") sheet = map (fun r => Some (VS (r_id r))) rows.
+Proof.
+  unfold export_strip, export. intros H.
+  destruct (to_rows ueqb nb nodes) as [rows|e]; cbn [bind] in H; [|discriminate].
+  inversion H as [Hc]. exists rows. split; [reflexivity|apply close_sheet_row_ids, Hc].
+Qed.
+
+Theorem sheet_numbered_ids nodes sheet :
+  export_strip ueqb true nodes = Ok (Some sheet) ->
+  sheet_col (lit "row_id") sheet = map (fun i => Some (VS (dec_of_nat i))) (seq 1 (List.length sheet)).
+Proof.
+  intros H. apply export_strip_rows in H. destruct H as [rows [Hr Hc]].
+  assert (Hlen : List.length sheet = List.length rows).
+  { apply (f_equal (@List.length _)) in Hc. unfold sheet_col in Hc. rewrite !map_length in Hc. exact Hc. }
+  rewrite Hc, Hlen. apply numbered_ids_are_1_to_n in Hr.
+  rewrite <- (map_map r_id (fun s => Some (VS s))), Hr, map_map. reflexivity.
+Qed.
+
+Theorem sheet_ids_unique nb nodes sheet :
+  export_strip ueqb nb nodes = Ok (Some sheet) ->
+  NoDup (sheet_col (lit "row_id") sheet) /\ ~ In (Some (VS start_id)) (sheet_col (lit "row_id") sheet)
+  /\ ~ In None (sheet_col (lit "row_id") sheet).
+Proof.
+  intros H. apply export_strip_rows in H. destruct H as [rows [Hr Hc]].
+  apply row_ids_unique in Hr. destruct Hr as [Hnd [Hs _]].
+  rewrite Hc, <- (map_map r_id (fun s => Some (VS s))). split; [|split].
+  - apply NoDup_map_inj; [|exact Hnd]. intros a b _ _ Hab. inversion Hab. reflexivity.
+  - intros Hin. apply in_map_iff in Hin. destruct Hin as [x [Hx Hin]]. inversion Hx; subst. exact (Hs Hin).
+  - intros Hin. apply in_map_iff in Hin. destruct Hin as [x [Hx _]]. discriminate.
 Qed.
 
 End RowIds.
